@@ -63,9 +63,8 @@ func tiers(tier string) tierCfg {
 				{Stack: "mem", Procs: 6, Ops: 10, Ids: []string{"a"}},
 				{Stack: "mem", Procs: 8, Ops: 10, Ids: []string{"a"}, GetPct: 70},
 				{Stack: "mem", Procs: 8, Ops: 8, Ids: []string{"a", "b"}},
-				{Stack: "mem", Procs: 8, Ops: 10, Ids: []string{"a"}, GetPct: 70, Noise: 8},
 			},
-			memN: 30000, sampleDisk: 150, sampleMem: 150, maxSuspects: 6,
+			memN: 20000, sampleDisk: 150, sampleMem: 150, maxSuspects: 6,
 		}
 	}
 	return tierCfg{
